@@ -12,6 +12,7 @@ from axolotl.state.prekeybundle import PreKeyBundle
 from axolotl.untrustedidentityexception import UntrustedIdentityException
 from axolotl.invalidmessageexception import InvalidMessageException
 from axolotl.invalidversionexception import InvalidVersionException
+from axolotl.legacymessageexception import LegacyMessageException
 from google.protobuf.message import DecodeError
 from axolotl.duplicatemessagexception import DuplicateMessageException
 from axolotl.invalidkeyidexception import InvalidKeyIdException
@@ -174,7 +175,7 @@ class AxolotlManager(object):
             raise exceptions.NoSessionException()
         except InvalidKeyIdException:
             raise exceptions.InvalidKeyIdException()
-        except (InvalidMessageException, InvalidVersionException, DecodeError):
+        except (InvalidMessageException, InvalidVersionException, LegacyMessageException, DecodeError):
             raise exceptions.InvalidMessageException()
         except DuplicateMessageException:
             raise exceptions.DuplicateMessageException()
@@ -191,7 +192,7 @@ class AxolotlManager(object):
             raise exceptions.NoSessionException()
         except InvalidKeyIdException:
             raise exceptions.InvalidKeyIdException()
-        except (InvalidMessageException, InvalidVersionException, DecodeError):
+        except (InvalidMessageException, InvalidVersionException, LegacyMessageException, DecodeError):
             raise exceptions.InvalidMessageException()
         except DuplicateMessageException:
             raise exceptions.DuplicateMessageException()
